@@ -25,8 +25,9 @@ import traceback
 VERIF = os.path.dirname(os.path.dirname(os.path.abspath(__file__)))
 LEAN = os.path.join(VERIF, "lean")
 REPO = os.environ.get("QCLIB_REPO", "/repo")
-EVID = os.path.join(VERIF, "evidence")
 WORK = os.path.join(VERIF, "work")
+# evidence is only ever written for /repo itself; runs against a scratch copy (QCLIB_REPO=...) go to work/
+EVID = os.path.join(VERIF, "evidence") if os.path.realpath(REPO) == "/repo" else os.path.join(WORK, "evidence-scratch")
 ALLOWED_AXIOMS = {"propext", "Classical.choice", "Quot.sound"}
 FORBIDDEN = re.compile(
     r"\b(sorry|admit|native_decide|bv_decide|implemented_by)\b|^\s*axiom\s|\bunsafe\s|maxHeartbeats\s+0\b"
@@ -146,11 +147,12 @@ def decode_param(tok):
     return float(tok)
 
 
-def run_driver(ops, timeout=3000):
-    """ops: list of JSON-serialisable dicts.  Returns list of blocks (list of lines)."""
+def run_driver(ops, timeout=3000, driver="Drivers/Main.lean"):
+    """ops: list of JSON-serialisable dicts.  Returns list of blocks (list of lines).
+    The driver file is interpreted (`lean --run`) against the compiled model modules."""
     inp = "\n".join(json.dumps(o) for o in ops) + "\n"
-    with Lock("driver"):
-        rc, out, err = sh(["lake", "env", "lean", "--run", "Main.lean"], cwd=LEAN, inp=inp,
+    if True:
+        rc, out, err = sh(["lake", "env", "lean", "--run", driver], cwd=LEAN, inp=inp,
                           timeout=timeout)
     if rc != 0:
         raise RuntimeError("driver failed: " + (err or out)[-2000:])
@@ -284,7 +286,7 @@ def run_check(mod, pid, tier, seed, replay=None):
             broken.append({"obligation": "translator", "detail": str(e)[:2000]})
 
     # 1. build
-    rc, log = lake_build(targets + ["QclibModel.Model.All"])
+    rc, log = lake_build(targets + list(getattr(mod, "MODEL_TARGETS", [])))
     build_ok = rc == 0
     if not build_ok:
         errs = [l for l in log.split("\n") if "error" in l][:20]
@@ -322,7 +324,7 @@ def run_check(mod, pid, tier, seed, replay=None):
 
     tie_diffs = []
     if ctx.tie_cases and build_ok:
-        blocks = run_driver([c[0] for c in ctx.tie_cases])
+        blocks = run_driver([c[0] for c in ctx.tie_cases], driver=getattr(mod, "DRIVER", f"Drivers/{pid}.lean"))
         for (op, impl, label), model in zip(ctx.tie_cases, blocks):
             cmp = getattr(mod, "compare", None)
             d = cmp(op, impl, model) if cmp else diff_lines(impl, model)
